@@ -563,12 +563,13 @@ impl World {
             stream: self.snap_stream,
         };
         let old = self.cur;
+        // from now on the matcher may let go of the old stream at any time - possibly inside
+        // `restart` itself if it holds the last reference - (when exactly is internal); only
+        // injectors keep it reachable as far as the early-drop rule is concerned
+        stream_handles_add(&self.reg, old, -1);
         self.n().restart(clear);
         self.cur += 1;
         stream_handles_add(&self.reg, self.cur, 1);
-        // from now on the matcher may let go of the old stream at any time (when exactly is
-        // internal); only injectors keep it reachable as far as the early-drop rule is concerned
-        stream_handles_add(&self.reg, old, -1);
         self.note(format!("restart({clear}) stream {old} -> {}", self.cur));
         let snap = self.nucleo.as_ref().unwrap().snapshot();
         if clear {
